@@ -1,5 +1,7 @@
 import PyomaVerif.Lemmas.MixBell
 import PyomaVerif.Props.C07All
+import Mathlib.Tactic.IntervalCases
+import Mathlib.Tactic.NormNum
 /-!
 # C08 (depth 2) — EFDD / FSDD under channel permutation and orthogonal mixing, end to end
 
@@ -394,5 +396,98 @@ theorem C08_perm_bell (E E' : Ext K) (m : Method) (ms : SyMethod) (n nf : Nat) {
     cases h2 : efddMpe E' m ms n nf Sy' freq dt sel DF1 DF2 cm MAClim sppk npmax with
     | error e' => rw [h1, h2] at h; exact h.elim
     | ok r' => rw [h1, h2] at h; exact hw r r' h
+
+
+/-! ## Non-vacuity -/
+section examples
+open PV.C07All
+
+/-- a rotation of the two channels: `[[3/5, 4/5], [-4/5, 3/5]]` -/
+def exQ : Nat → Nat → Rat := fun i j => if i = j then 3/5 else if i = 0 then 4/5 else -4/5
+
+theorem exQ_ortho : OrthoOn 2 exQ := by
+  intro a ha b hb
+  interval_cases a <;> interval_cases b <;> simp [Finset.sum_range_succ, exQ] <;> norm_num
+
+/-- `Q·Sy·Qᵀ` for the spectral array `C07All.exSy` (two channels, eight lines, `diag(s_l, 1)`) -/
+def exSyQ : Nat → Nat → Nat → Cx Rat := fun i j k =>
+  sumTo 2 (fun μ => sumTo 2 (fun ν => Cx.ofReal (exQ i μ) * exSy μ ν k * Cx.ofReal (exQ j ν)))
+
+/-- the library record of the mixed run: `U' = Q·I`, singular values read off `Qᵀ·A·Q`; the other
+    routines are those of `C07All.exE2` -/
+def exEQ : Ext Rat :=
+  { exE2 with
+    svd := fun _ _ A =>
+      ⟨fun i r => sumTo 2 (fun a => Cx.ofReal (exQ i a) * (if a = r then 1 else 0)),
+       fun i => if i < 2 then
+         (sumTo 2 (fun μ => sumTo 2 (fun ν => Cx.ofReal (exQ μ i) * A μ ν * Cx.ofReal (exQ ν i)))).re
+       else 0⟩ }
+
+theorem exMixedSy : MixedSy 2 exQ exSy exSyQ := by
+  intro k i _ j _
+  unfold exSyQ cconj
+  rw [sumTo_eq]
+  exact Finset.sum_congr rfl (fun μ _ => sumTo_eq _ _)
+
+theorem exMixRecord : MixRecord exE2 exEQ 2 exQ exSy exSyQ where
+  S := by
+    intro k
+    funext i
+    by_cases hi : i < 2
+    · have s2 : ∀ f : Nat → Cx Rat, sumTo 2 f = 0 + f 0 + f 1 := fun f => rfl
+      interval_cases i <;>
+        simp [exEQ, exE2, exSyQ, exSy, exQ, s2, Cx.ofReal] <;>
+        generalize ([1, 2, 9, 2, 1, 1, 1, 1][k]?.getD 1 : Rat) = a <;> ring
+    · have h0 : ¬ (i = 0) := by omega
+      have h1 : ¬ (i = 1) := by omega
+      simp [exEQ, exE2, exSy, h0, h1]
+      intro h; omega
+  U := by
+    intro k i r _
+    simp only [exEQ, exE2, cmix]
+    rw [sumTo_eq]
+  sqrt := rfl
+  log := rfl
+  pi := rfl
+  ifft := rfl
+  fit := rfl
+
+theorem exLin (nf : Nat) : ∀ (s : Rat) (b : Nat → Cx Rat), 0 < s →
+    exE2.ifft nf (fun l => Cx.smul s (b l)) = fun i => s * exE2.ifft nf b i := by
+  intro s b _
+  funext i
+  simp only [exE2, Cx.smul_re]
+  ring
+
+/-- all hypotheses of `C08_mix_bell` hold jointly for this instance (a proper rotation) -/
+example : OrthoOn 2 exQ ∧ MixedSy 2 exQ exSy exSyQ ∧ MixRecord exE2 exEQ 2 exQ exSy exSyQ ∧
+    (∀ (s : Rat) (b : Nat → Cx Rat), 0 < s →
+      exE2.ifft 8 (fun l => Cx.smul s (b l)) = fun i => s * exE2.ifft 8 b i) :=
+  ⟨exQ_ortho, exMixedSy, exMixRecord, exLin 8⟩
+
+/-- the two FSDD runs (original and rotated channels) -/
+def exRunF : Except String (List (ModeAll Rat)) :=
+  efddMpe exE2 .FSDD .per 2 8 exSy (fun i => (i : Rat)) (1/16) [2] 1 2 1 (17/20) 1 4
+def exRunFQ : Except String (List (ModeAll Rat)) :=
+  efddMpe exEQ .FSDD .per 2 8 exSyQ (fun i => (i : Rat)) (1/16) [2] 1 2 1 (17/20) 1 4
+
+/-- … both return (so the conclusion of `C08_mix_bell` is about values, not about a shared
+    exception): same bell support and fitted extrema; shape `(1, 0)` resp. `(-3/4, 1)`, which is
+    `c·Q·(1, 0)` with `c = -5/4` — the FSDD bell of the rotated run is `25/16` times the original -/
+theorem exRunF_ok : (match exRunF with
+    | .ok l => l.map (fun (mo : ModeAll Rat) => (mo.phi.map (fun (z : Cx Rat) => (z.re, z.im)), mo.idSV, mo.post.fitIdx))
+    | .error _ => []) = [([(1, 0), (0, 0)], [0, 1, 2, 3], [4, 6, 8, 10])] := by decide +kernel
+theorem exRunFQ_ok : (match exRunFQ with
+    | .ok l => l.map (fun (mo : ModeAll Rat) => (mo.phi.map (fun (z : Cx Rat) => (z.re, z.im)), mo.idSV, mo.post.fitIdx))
+    | .error _ => []) = [([(-3/4, 0), (1, 0)], [0, 1, 2, 3], [4, 6, 8, 10])] := by decide +kernel
+example : (efddBell exEQ .FSDD 2 1 8 (1/16) exSyQ (fun i => [(⟨-3/4, 0⟩ : Cx Rat), ⟨1, 0⟩].getD i 0) 2 2 (17/20) 2).re
+    = 25/16 * (efddBell exE2 .FSDD 2 1 8 (1/16) exSy (fun i => [(⟨1, 0⟩ : Cx Rat), ⟨0, 0⟩].getD i 0) 2 2 (17/20) 2).re := by
+  decide +kernel
+
+/-- a swap of the two channels is a permutation (`C08_perm_bell`, `C08_perm_is_mix`) -/
+example : PermOn 2 (fun a => 1 - a) (fun a => 1 - a) :=
+  ⟨fun a h => by omega, fun a h => by omega, fun a h => by omega, fun a h => by omega⟩
+
+end examples
 
 end PV.C08MixBell
